@@ -154,6 +154,7 @@ func RunForwardIterative(op IterativeAnalysis, function *ssa.Function) {
 	// memoize paths between blocks
 	var pathMem map[*ssa.BasicBlock]map[*ssa.BasicBlock]bool
 	worklist = append(worklist, function.Blocks[0])
+	verifhook.At("lang.RunForwardIterative.enter")
 	for { // until fixpoint is reached
 		verifhook.At("lang.RunForwardIterative.step")
 		// Set the current Block if there is one
